@@ -67,6 +67,13 @@ def specs(tier):
     cands.append((tied_masks, [('A2', .5), ('A3', .3), ('D1', .2)]))
     if tier == 'thorough':
         cands += [(big, [('A1', .3), ('A3', .3), ('D1', .2), ('D2', .1), ('K4', .1)]), (t1, [('A1', .5), ('A2', .25), ('D1', .125), ('O1', .125)])]
+        # every ordered pair / every ascending triple of word classes of the tie-rich terminal set, with distinct and with tied class probabilities
+        names = ['A1', 'A3', 'D1', 'D2', 'O1', 'K4', 'Y1', 'X1']
+        for a, b in itertools.permutations(names, 2):
+            cands.append((big, [(a, .6), (b, .4)]))
+            cands.append((big, [(a, .5), (b, .5)]))
+        for a, b, c in itertools.combinations(names, 3):
+            cands.append((big, [(a, .4), (b, .4), (c, .2)]))
     out = []
     for term, pr in cands:
         spec = dict(term)
